@@ -79,6 +79,7 @@ def prox_group_lasso(W, thr, groups=None):
     out = np.empty_like(W)
     if groups is None:
         groups = [[i] for i in range(W.shape[0])]
+    groups = [[int(v) for v in g] for g in groups]        # a group is a SET of feature rows, whatever sequence type holds it
     for g in groups:
         flat = W[g].reshape(-1)
         out[g] = prox_group_lasso_row(flat, thr).reshape(W[g].shape)
@@ -140,6 +141,7 @@ def hier_prox(W_skip, W1, alpha, M, groups=None):
     uniq = np.ones(W_skip.shape[0], dtype=bool)
     if groups is None:
         groups = [[i] for i in range(W_skip.shape[0])]
+    groups = [[int(v) for v in g] for g in groups]
     for g in groups:
         b, t, ok = hier_prox_row(W_skip[g].reshape(-1), W1[g].reshape(-1), alpha, M)
         B[g] = b.reshape(W_skip[g].shape)
